@@ -37,6 +37,8 @@ pub struct Trace {
     pub log: Mutex<Vec<Rec>>,
     pub prefix: Mutex<String>,
     pub fail_put_suffix: Mutex<Option<String>>,
+    /// the next DELETE of a path with this suffix fails (once)
+    pub fail_del_suffix: Mutex<Option<String>>,
 }
 
 impl Trace {
@@ -139,6 +141,13 @@ impl ObjectStore for TraceStore {
                     let p = loc.to_string();
                     trace.begin(&p);
                     trace.yield_once().await;
+                    {
+                        let mut f = trace.fail_del_suffix.lock().unwrap();
+                        if f.as_ref().is_some_and(|s| p.ends_with(s.as_str())) {
+                            *f = None;
+                            return Err(Error::Generic { store: "trace", source: "injected DELETE failure".into() });
+                        }
+                    }
                     inner.delete(&loc).await?;
                     trace.record(Kind::Del, &p);
                     Ok(loc)
